@@ -299,6 +299,33 @@ theorem spaceless_ofList {l : List Char} (h : ∀ c ∈ l, c ≠ ' ') : Spaceles
 theorem spaceless_takeChars {s : String} (h : Spaceless s) (n : Nat) : Spaceless (takeChars s n) :=
   spaceless_ofList fun c hc => h c (List.mem_of_mem_take hc)
 
+theorem mem_takeWhile_holds {α : Type} (p : α → Bool) : ∀ (l : List α) (x : α), x ∈ l.takeWhile p → p x = true
+  | [], _, h => by simp at h
+  | a :: l, x, h => by
+    by_cases hp : p a = true
+    · rw [List.takeWhile_cons, if_pos hp] at h
+      rcases List.mem_cons.1 h with rfl | h
+      · exact hp
+      · exact mem_takeWhile_holds p l x h
+    · rw [List.takeWhile_cons, if_neg hp] at h
+      cases h
+
+theorem takeWhile_of_all {α : Type} (p : α → Bool) : ∀ (l : List α), (∀ x ∈ l, p x = true) → l.takeWhile p = l
+  | [], _ => rfl
+  | a :: l, h => by
+    rw [List.takeWhile_cons, if_pos (h a (List.mem_cons_self ..)),
+      takeWhile_of_all p l (fun x hx => h x (List.mem_cons_of_mem _ hx))]
+
+theorem spaceless_firstWord (s : String) : Spaceless (firstWord s) := by
+  unfold firstWord
+  exact spaceless_ofList fun c hc => by
+    have := mem_takeWhile_holds (· != ' ') _ c hc
+    simpa using this
+
+theorem firstWord_of_spaceless {s : String} (h : Spaceless s) : firstWord s = s := by
+  unfold firstWord
+  rw [takeWhile_of_all (· != ' ') _ (fun c hc => by simpa using h c hc), String.ofList_toList]
+
 theorem spaceless_empty : Spaceless "" := by decide
 
 theorem spaceless_append {a b : String} (ha : Spaceless a) (hb : Spaceless b) : Spaceless (a ++ b) := by
